@@ -62,6 +62,9 @@ def build_pool(master_seed, names=None, versions=('1.0', '1.1'), build=True, cor
             main = write_sources(fam, version)
             schema = fam.assemble(os.path.dirname(main), schema_class(version), build=build)
             docs = fam.docs(sub_rng(master_seed, 'pool', name))
+            if name in ('ids', 'keys', 'subst', 'mixed', 'big', 'assert11', 'wild', 'multi'):
+                from pool.families import with_double_faults
+                docs = with_double_faults(docs, sub_rng(master_seed, 'double', name))
             entries[f'{name}/{version}'] = Entry(fam, version, schema, main, docs)
     if corpus:
         from pool.corpus import corpus_entries
